@@ -235,6 +235,28 @@ class C11(object):
                 "nontrivial": bool(above.any()), "viol": viol, "measures": meas}
 
 
+    def minimise(self, desc, viol, ctx):
+        cls = viol["class"]
+
+        def fails(d):
+            try:
+                r = self.execute(d, ctx)
+            except Exception:
+                return False
+            return r["viol"] is not None and r["viol"]["class"] == cls
+        if not fails(desc):
+            return desc
+        d = enginea.shrink_image_desc(desc, fails)
+        # a team of one and the simplest strategy if the failure does not need a schedule
+        for simpler in ({"team": 1, "strategy": "rtc"}, {"strategy": "rtc"}):
+            d2 = dict(d)
+            d2["cfg"] = dict(d["cfg"], **simpler)
+            if fails(d2):
+                d = d2
+                break
+        return d
+
+
 CHECK = C11()
 if __name__ == "__main__":
     sys.exit(runner.main(CHECK))
